@@ -1798,11 +1798,14 @@ impl<'a> Query<'a> {
 
         if self.has_subqueries() {
             s += "\n{\n";
-            for subquery in self.subqueries() {
+            for (i, subquery) in self.subqueries().enumerate() {
+                if i > 0 {
+                    s += "\n|\n";
+                }
                 s.push(' ');
                 s += &subquery.to_string()?;
             }
-            s += "}";
+            s += "\n}"; //(not directly after a variable name, it would be taken as part of it)
         }
         Ok(s)
     }
